@@ -90,6 +90,8 @@ def rule_rewrite_order(ctx: Ctx) -> None:
 
 
 def run(ctx: Ctx) -> None:
+    from ..rules import memo as _memo
+    _memo.rule_memo_sound(ctx, ['graphiq/circuit/circuit_dag.py', 'graphiq/backends/compiler_base.py', 'graphiq/metrics.py'])
     effects.rule_inplace_on_input(ctx)
     effects.rule_shared_op_store(ctx)
     effects.rule_alias_into_state(ctx)
